@@ -72,7 +72,7 @@ func predDiff(c Case) (r Result) {
 	want, werr := ev.Eval(n, ref.DeepCopy(doc))
 
 	one := libSearch(c.Expr, ref.DeepCopy(doc))
-	two := libCompileSearch(c.Expr, ref.DeepCopy(doc))
+	two, three := libCompileSearchTwice(c.Expr, doc)
 
 	for k := range ev.Stats {
 		r.class(k)
@@ -87,8 +87,9 @@ func predDiff(c Case) (r Result) {
 		r.Nontrivial = true // a cell of an exhaustive table
 	}
 
-	for i, o := range []libOut{one, two} {
-		which := []string{"Search(expr, doc)", "Compile(expr).Search(doc)"}[i]
+	whichNames := []string{"Search(expr, doc)", "Compile(expr).Search(doc)", "Compile(expr).Search(doc) repeated after searching other documents"}
+	for i, o := range []libOut{one, two, three} {
+		which := whichNames[i]
 		if o.Panic != nil {
 			r.Violation = which + " panicked"
 			r.Got = showOut(o)
@@ -105,8 +106,11 @@ func predDiff(c Case) (r Result) {
 		r.Nontrivial = false
 		return
 	}
-	for i, o := range []libOut{one, two} {
-		which := []string{"Search(expr, doc)", "Compile(expr).Search(doc)"}[i]
+	for i, o := range []libOut{one, two, three} {
+		which := whichNames[i]
+		if i == 2 && !o.Compiled {
+			continue
+		}
 		if werr != nil {
 			r.class("result.error")
 			if o.Err == nil {
